@@ -110,12 +110,24 @@ func (r *reference) resolveRef(cfg *Config, opts *options) (value, error) {
 	verifResolve(r)
 	env := opts.env
 
-	opts.eval.add(r.Path.String())
-	if ok := opts.activeFields.AddNew(r.Path.String()); !ok {
-		opts.eval.reentered(r.Path.String())
+	// A reference is identified by its name and the configuration it is
+	// written in: the same name used in an environment is looked up elsewhere
+	// (the environment first) and is another reference.
+	key := r.Path.String()
+	if root := cfgRoot(cfg); root != nil {
+		for i, e := range env {
+			if cfgRoot(e) == root {
+				key = fmt.Sprintf("env%d:%s", i, key)
+				break
+			}
+		}
+	}
+	opts.eval.add(key)
+	if ok := opts.activeFields.AddNew(key); !ok {
+		opts.eval.reentered(key)
 		return nil, raiseCyclicErr(r.Path.String())
 	}
-	opts.eval.activated(r.Path.String())
+	opts.eval.activated(key)
 
 	var err, cyclic Error
 
